@@ -1,5 +1,5 @@
 import Percival.Proofs.HttpRequest
-import Percival.Proofs.Http
+import Percival.Proofs.HttpDecode
 /-!
 # C09 — the HTTP client decodes every well-formed response exactly; the request is sent verbatim
 
@@ -29,5 +29,68 @@ theorem request_length_exact (r : HttpRequest.Request) :
 
 example : HttpRequest.headLen { method := [71, 69, 84], path := [47], headers := [([65], [98]), ([67], [])], body := [] } = 29 := by
   decide
+
+/-- **Batch decoding (P1).**  For every well-formed response value `r` (`Spec.HttpResp.Resp.WF`: any number
+of interim 1xx header blocks, a final status line `HTTP/1.x sss reason` with 200 ≤ sss ≤ 599, any header
+fields `name ":" OWS value OWS` without CR/LF/NUL, framing by `Content-Length`, by `Transfer-Encoding: chunked`
+with any non-empty chunks and `;`-extensions, or by connection close; no body after the header block for HEAD,
+204 and 304), every body limit `max ≥ |body|` and whatever `sscanf` stores for out-of-range numerals: when the
+whole wire format `serialize r` is buffered at the first wait, the run ends in exactly one callback, with exactly
+`r`'s status, exactly its header names and values (optional white space trimmed) in order, and exactly its body.
+(`hsz`: the body is shorter than `SIZE_MAX - 2` bytes — any body that exists in memory.) -/
+theorem decode_serialize (ovf : Bool → Nat → Int) (r : Resp) (ishead : Bool) (max : Nat)
+    (hwf : r.WF ishead) (hmax : (expectedBody r ishead).length ≤ max)
+    (hsz : r.framing.body.length + 2 ≤ Http.SIZE_MAX) :
+    ∃ ws, Http.runAll ovf (Percival.Proofs.HttpDecode.whole (serialize r ishead).length) () ishead max (serialize r ishead) =
+      .callback (some { status := (r.final.status : Int), headers := expectedHeaders r,
+                        body := some (expectedBody r ishead) }) ws :=
+  Percival.Proofs.HttpDecode.decode_serialize ovf r ishead max hwf hmax hsz
+
+/-- a well-formed value: one interim `100 Continue`, then `HTTP/1.1 200 OK`, `A: b` (with OWS),
+    `Transfer-Encoding: chunked`, two chunks "hi" and "!" (the second with an extension) -/
+def sample : Resp :=
+  { interim := [{ minor := 1, status := 100, reason := [32, 67], headers := [] }],
+    final := { minor := 1, status := 200, reason := [32, 79, 75],
+               headers := [{ name := [65], value := [98], pre := [32], post := [9] },
+                           { name := sTransferEncoding, value := sChunked, pre := [32] }] },
+    framing := .chunked [([104, 105], []), ([33], [59, 120])] [] [13, 10] }
+
+example : sample.WF false := by
+  refine ⟨?_, ?_, ?_⟩
+  · intro b hb
+    simp only [sample, List.mem_singleton] at hb
+    subst hb
+    refine ⟨by decide, by decide, by decide, by decide, by decide, ?_⟩
+    intro h hh; simp at hh
+  · refine ⟨by decide, by decide, by decide, by decide, by decide, ?_⟩
+    intro h hh
+    simp only [sample, List.mem_cons, List.mem_nil_iff, or_false] at hh
+    rcases hh with rfl | rfl <;> (refine ⟨by decide, by decide, by decide, by decide, by decide, by decide⟩)
+  · intro _
+    refine ⟨by decide, ?_, by decide, by decide⟩
+    intro c hc
+    simp only [List.mem_cons, List.mem_nil_iff, or_false] at hc
+    rcases hc with rfl | rfl <;> (refine ⟨by decide, by decide, by decide⟩)
+
+/-
+**Segmentation independence (P2) — not proved.**  Full statement: for every well-formed `r` whose header
+blocks are at most `MAXHDR` bytes and whose chunk-size lines are shorter than `MAXCHLEN - 1`, every limit
+`max ≥ |body|` and every reader behaviour `oracle` which delivers the stream completely (any arrival schedule,
+then EOF),
+    `runAll ovf oracle o ishead max (serialize r ishead)` ends in `.callback (some r') ws` with the same `r'`
+    as in `decode_serialize`
+("a decision taken on a prefix is the decision taken on any extension", per handler).  What is proved about
+arbitrary segmentation is C08 (`run_terminates_with_one_callback`: one callback, no abort, range facts).  That the
+decoded *content* does not depend on the segmentation is covered by the correspondence run only: every
+well-formed case of `tools/props/c0809_common.py` is cut into random segments (whole / bytewise / random sizes /
+sizes around the reader's 4096-byte buffer, with EAGAINs) and the real code's callback is compared (L1) with the
+model's under the same segmentation, and the model's decoding of each generated value is checked against the
+value itself (`wf` op).
+-/
+
+/-- constants of `http.c` on which `decode_serialize` depends (regenerated from the source) -/
+theorem gen_constants : Percival.Gen.Http.INTERIM_MIN = 100 ∧ Percival.Gen.Http.INTERIM_MAX = 199 ∧
+    Percival.Gen.Http.NOBODY_A = 204 ∧ Percival.Gen.Http.NOBODY_B = 304 ∧
+    Percival.Gen.Http.STATUS_MIN = 100 ∧ Percival.Gen.Http.STATUS_MAX = 599 := by decide
 
 end Percival.C09
